@@ -4,6 +4,6 @@ d=$1; shift
 git -C /repo apply --check "$d/patch.diff" || { echo "PATCH DOES NOT APPLY: $d"; exit 3; }
 git -C /repo apply "$d/patch.diff"
 for p in "$@"; do
-  /verif/vcheck $p --tier quick | grep -E "^  rule|^\[|ANALYSIS" | cut -c1-400
+  /verif/vcheck $p --tier quick --no-evidence | grep -E "^  rule|^\[|ANALYSIS" | cut -c1-400
 done
 git -C /repo apply -R "$d/patch.diff"
